@@ -100,6 +100,8 @@ TSnapshot ==
   /\ Stutter
 (* the driver built the same key in a brand-new engine: binds the Clean oracle to the real engine *)
 TCleanCheck == Is("CleanCheck") /\ ~Running /\ ev.clean = Clean(ev.k) /\ Stutter
+(* the process was killed (kill shim): memory and the open transaction are gone *)
+TCrash    == Is("Crash") /\ (Crash \/ CrashAfterCommit)
 TEnd      == Is("End") /\ ~Running /\ Stutter
 
 TraceInit ==
@@ -114,7 +116,7 @@ TraceNext ==
   \/ TReset \/ TEngine \/ TDbEpoch \/ TAttach \/ TMutate \/ TResetFB \/ TBuild \/ TDbBegin \/ TTop
   \/ TStatus \/ TValid \/ TNeedsRun \/ TCreate \/ TStart \/ TPrior \/ TProvide \/ TAvail \/ TDisc
   \/ TComplete \/ TDbLookup \/ TDbSet \/ TDbIter \/ TDbEnd \/ TCancel \/ TCancelDone \/ TCycle
-  \/ TReturn \/ TSnapshot \/ TCleanCheck \/ TEnd
+  \/ TReturn \/ TSnapshot \/ TCleanCheck \/ TCrash \/ TEnd
 
 TraceSpec == TraceInit /\ [][TraceNext]_tvars
 
